@@ -269,6 +269,21 @@ def gen_ladder():
     body += "Definition unary_tags : list string := %s.\n" % coq_str_list(unary)
     body += "Definition op0_alternatives : list string := %s.\n" % coq_str_list(op0_alts)
     body += "Definition ternary_cond_rule : string := %s.\n\n" % coq_string(cond_level)
+    # keywords: if / then / else / let / in are matched by keyword(..) = terminated(tag(k), not(peek(satisfy(ident char)))),
+    # never by a bare tag, and neither rule commits with cut() (a failed `if` must fall back to the plain expression)
+    def rule_body(name):
+        mm = re.search(r"rule!\(%s(?:\(i\))?\s*->\s*Value,\s*\{(.*?)\n\}\);" % name, src, re.S)
+        return mm.group(1) if mm else ""
+    b_if, b_let = rule_body("op_if"), rule_body("op_let")
+    kwf = re.search(r"fn\s+keyword\b.*?\{(.*?)\n\}", src, re.S)
+    kw_shape = bool(kwf) and bool(re.search(r"terminated\(\s*tag\(k\)\s*,\s*not\(peek\(satisfy\(\|c:\s*char\|\s*c\.is_ascii_alphanumeric\(\)\s*\|\|\s*c\s*==\s*'_'\)\)\)\s*,?\s*\)", kwf.group(1)))
+    kws_if = re.findall(r'keyword\(\s*"(\w+)"\s*\)', b_if)
+    kws_let = re.findall(r'keyword\(\s*"(\w+)"\s*\)', b_let)
+    bare = re.findall(r'tag\(\s*"(if|then|else|let|in)"\s*\)', b_if + b_let)
+    bounded = kw_shape and kws_if == ["if", "then", "else"] and kws_let == ["let", "in"] and not bare
+    no_cut = bool(b_if) and bool(b_let) and "cut(" not in b_if and "cut(" not in b_let
+    body += "Definition keywords_word_bounded : bool := %s.\n" % ("true" if bounded else "false")
+    body += "Definition keyword_rules_do_not_commit : bool := %s.\n\n" % ("true" if no_cut else "false")
     # documented operator tokens: precedence x 10, spelling, associativity
     dbin, dun = [], []
     for prec, name, assoc, spell in doc:
